@@ -2,7 +2,7 @@
 // statement boundary k, while the backend is provably stuck after exactly j sink writes (gated sink) or asleep.
 // The parent inspects the wait status and the log file from outside.
 //
-// argv: --log PATH --fault stop|exit|return|segv|abrt|fpe|ill|int|term --n N --k K --j J(-1 = backend asleep)
+// argv: --log PATH --fault stop|exit|return|segv|abrt|fpe|ill|int|term --n N --k K --j J(-1 = backend asleep) [--nowait 1]
 //       --clock system|tsc --cycles 1|2 --second none|finished|alive --handler 0|1
 //       --tpos P   the second thread logs T1,T2 after the main thread's statement number P (0 = before all of them, so the
 //                  second thread registers first; >= 1: the main thread registers first)
@@ -96,6 +96,9 @@ int main(int argc, char** argv)
   BackendOptions bo;
   bo.error_notifier = [](std::string const& s) { fprintf(stderr, "notifier: %s\n", s.c_str()); };
   if (asleep) bo.sleep_duration = std::chrono::hours{1};
+  // the guarantee for a handled signal does not depend on the shutdown drain: with the drain switched off the handler's own
+  // flush is the only thing that brings the thread's statements out
+  if (atoi(arg(argc, argv, "--nowait", "0"))) bo.wait_for_queues_to_empty_before_exit = false;
   if (int const lim = atoi(arg(argc, argv, "--lim", "0")))
   {
     // tiny backend buffering limits: a read pass caches at most `lim` statements per queue, the drain has to go back to the
